@@ -74,7 +74,7 @@ pub fn window_case(u: &mut Unstructured) -> c18::Case {
             _ => c18::Op::AddMany(u.int_in_range(0..=2000).unwrap_or(0)),
         });
     }
-    c18::Case { writer, size, chunk, file_len, ops }
+    c18::Case { writer, size, chunk, file_len, ops, fsize_limit: None }
 }
 
 fn fate(u: &mut Unstructured) -> Fate {
@@ -133,6 +133,7 @@ pub fn scenario(u: &mut Unstructured, role: Role) -> Scenario {
         gap_ack: u.arbitrary().unwrap_or(true),
         dally: u.arbitrary().unwrap_or(true),
         pre_existing: role == Role::Receiver && u.ratio(1, 4).unwrap_or(false),
+        fsize_limit: None,
     }
 }
 
